@@ -31,6 +31,48 @@ class Val:
         self.v = v
 
 
+class FalsyBool:
+    def __bool__(self):
+        return False
+
+
+class LenZero:
+    def __len__(self):
+        return 0
+
+
+# What stands for "a value" (a __conform__ / hook / custom __adapt__ / factory result).  The protocol
+# only distinguishes None from not-None, so falsy objects and tuples of every shape are adapters
+# like any other.  The three singletons ((), 0, '') are each used at most once per case: the k-th
+# value created in a case gets flavour (shift + k) mod len(FLAVOURS).
+FLAVOURS = [
+    lambda v: (),
+    lambda v: 0,
+    lambda v: "",
+    lambda v: [],
+    lambda v: FalsyBool(),
+    lambda v: LenZero(),
+    lambda v: (Val(v), Val(v)),
+    lambda v: (Val(v),),
+    lambda v: ((Val(v), Val(v)),),
+    lambda v: float("0.0"),
+    lambda v: {},
+]
+
+
+def make_alt(code):
+    """alternate: 0 None, 1 an ordinary object, 2 a falsy list, 3 a pair, 4 a falsy float"""
+    if code == 0:
+        return None
+    if code == 2:
+        return []
+    if code == 3:
+        return (Val(-2), Val(-3))
+    if code == 4:
+        return float("0.0")
+    return Val(-1)
+
+
 def make_exc(kind, tag):
     if kind == "attr":
         return AttributeError("t%d" % tag)
@@ -47,6 +89,7 @@ class Ctx:
         self.I = None
         self.V = {}
         self.E = {}
+        self.flavour = None      # None: ordinary objects; n: falsy / tuple values, see FLAVOURS
         # nested adaptation J(other, None) started from inside a hook / factory
         self.depth = 0
         self.J = None
@@ -56,8 +99,14 @@ class Ctx:
 
     def val(self, v):
         if v not in self.V:
-            self.V[v] = Val(v)
+            if self.flavour is None:
+                self.V[v] = Val(v)
+            else:
+                self.V[v] = FLAVOURS[(self.flavour + len(self.V)) % len(FLAVOURS)](v)
         return self.V[v]
+
+    def is_val(self, r):
+        return any(r is x for x in self.V.values())
 
     def exc(self, kind, tag):
         if (kind, tag) not in self.E:
@@ -362,7 +411,17 @@ def build_obj(case, I, ctx):
             on_instance = (Conf(),)
     else:
         assert kind == "absent", kind
-    cls = type("Obj", (object,), ns)
+    # the adapted object may itself be falsy or a tuple (empty, singleton, pair, nested)
+    of = case.get("objflavour", "plain")
+    base, init = object, ()
+    if of in ("tuple0", "tuple1", "tuple2", "nested"):
+        base = tuple
+        init = ({"tuple0": (), "tuple1": (1,), "tuple2": (1, 2), "nested": ((3, 4),)}[of],)
+    elif of == "falsy":
+        ns["__bool__"] = lambda self: False
+    elif of == "len0":
+        ns["__len__"] = lambda self: 0
+    cls = type("Obj", (base,), ns)
     how = case.get("how", "implementer")
     if "__slots__" in ns and how in ("directly", "also"):
         how = "implementer"      # no instance __dict__ to hold __provides__
@@ -373,7 +432,7 @@ def build_obj(case, I, ctx):
             class ISub(I):
                 pass
             implementer(ISub)(cls)
-    ob = cls()
+    ob = cls(*init)
     if on_instance is not None:
         object.__setattr__(ob, "__conform__", on_instance[0])
     if case["provides"]:
@@ -407,7 +466,7 @@ def make_hook(i, h, ctx, nested=None):
                 ctx.depth -= 1
             ctx.nres.append(r)
             if nested.get("ret"):
-                return r if isinstance(r, Val) else None
+                return r if ctx.is_val(r) else None
         if h[0] == "none":
             return None
         if h[0] == "value":
@@ -448,8 +507,8 @@ def nested_obs(ctx):
     r = ctx.nres[0]
     if r is ctx.other:
         out = ["obj"]
-    elif isinstance(r, Val):
-        out = ["val", r.v]
+    elif ctx.is_val(r):
+        out = ["val", [v for v, x in ctx.V.items() if x is r][0]]
     elif r is None:
         out = ["alt"]
     else:
@@ -482,6 +541,7 @@ def outcome(f, ctx, alt_given, alt):
 
 def run_instrumented(case):
     ctx = Ctx()
+    ctx.flavour = case.get("flavour")
     I = build_iface(case["chain"], ctx)
     ctx.I = I
     ob = build_obj(case, I, ctx)
@@ -491,9 +551,7 @@ def run_instrumented(case):
         build_nested(nested, ctx)
     hooks = [make_hook(i, h, ctx, nested) for i, h in enumerate(case["hooks"])]
     alt_given = case["alt"] is not None
-    alt = None
-    if alt_given and case["alt"] != 0:
-        alt = Val(-1)
+    alt = make_alt(case["alt"]) if alt_given else None
     saved = list(adapter_hooks)
     adapter_hooks[:] = hooks
     try:
@@ -518,6 +576,7 @@ def run_instrumented(case):
 
 def run_registry(case):
     ctx = Ctx()
+    ctx.flavour = case.get("flavour")
 
     class IReq(Interface):
         pass
@@ -587,9 +646,7 @@ def run_registry(case):
     elif r == "named":
         reg.register([IReq], I, "other-name", factory)
     alt_given = case["alt"] is not None
-    alt = None
-    if alt_given and case["alt"] != 0:
-        alt = Val(-1)
+    alt = make_alt(case["alt"]) if alt_given else None
     saved = list(adapter_hooks)
     adapter_hooks[:] = [reg.adapter_hook, checker] if nested else [reg.adapter_hook]
     try:
